@@ -58,8 +58,15 @@ D_FMT = [
 ]
 D_WRAPVM = [d_tlc("MC_WrapVM: register machine, all programs of <= 3 steps on 9 small layouts (TypeOK, RingHom, OnlyZeroDiv)",
                   "MC_WrapVM", "MC_WrapVM.cfg", "int")]
+D_FLOAT = [
+    d_tlc("MC_Float: to_float_kind + to_fixed_helper + from_float_helper and fixed/float comparison as repaired = M, every bit pattern "
+          "of two miniature float formats x every value of 64 layouts", "MC_Float", "MC_Float.cfg", "int"),
+    d_tlc("MC_Float_refute_max: with the original 'exp == EXP_MAX' test", "MC_Float", "MC_Float_refute_max.cfg", "int", expect="violated"),
+    d_tlc("MC_Float_refute_zero: with -0.0 reported negative", "MC_Float", "MC_Float_refute_zero.cfg", "int", expect="violated"),
+    d_tlc("MC_Float_refute_sub: with subnormals read at EXP_MIN - 1", "MC_Float", "MC_Float_refute_sub.cfg", "int", expect="violated"),
+]
 DESIGNS = {
-    "C01": [D_SEM] + D_MUL + D_DIV, "C02": [D_SEM] + D_MUL[:2], "C03": [D_SEM] + D_CMP, "C04": [D_SEM],
+    "C01": [D_SEM] + D_MUL + D_DIV, "C02": [D_SEM] + D_MUL[:2], "C03": [D_SEM] + D_CMP + D_FLOAT[:1], "C04": [D_SEM], "C05": D_FLOAT,
     "C06": [D_SEM, d_tlc("MC_Round: rounding methods as coded (masks, 0/1 integer-bit special cases) = exact roundings, every value, "
                          "68 layouts of widths 2..6 and 8", "MC_Round", "MC_Round.cfg", "int")],
     "C07": [D_SEM] + D_EUCLID, "C09": D_FMT,
